@@ -598,10 +598,27 @@ def tier_configs(tier):
         cs += [dict(NMsg=3, NSub=2, Cap=1, Lazy=False, Drive=[True, True], Mode="iter", Perm=[], Fut=[]),
                dict(NMsg=3, NSub=2, Cap=1, Lazy=True, Drive=[True, False], Mode="iter", Perm=[], Fut=[]),
                dict(NMsg=3, NSub=1, Cap=3, Lazy=False, Drive=[True], Mode="perm", Perm=[2, 0, 1], Fut=[]),
+               # longer out-of-order numberings (largest displacement below the capacity)
+               dict(NMsg=5, NSub=1, Cap=3, Lazy=False, Drive=[True], Mode="perm", Perm=[1, 3, 0, 4, 2], Fut=[]),
+               dict(NMsg=5, NSub=2, Cap=3, Lazy=False, Drive=[True, True], Mode="perm", Perm=[0, 3, 1, 4, 2], Fut=[]),
+               dict(NMsg=4, NSub=2, Cap=2, Lazy=False, Drive=[True, True], Mode="perm", Perm=[1, 0, 3, 2], Fut=[]),
+               dict(NMsg=5, NSub=1, Cap=4, Lazy=False, Drive=[True], Mode="perm", Perm=[3, 0, 1, 2, 4], Fut=[]),
                dict(NMsg=2, NSub=3, Cap=2, Lazy=True, Drive=[False, True, False], Mode="iter", Perm=[], Fut=[])]
         budget = 1500
     else:
         cs = all_configs(max_msg=5, max_sub=3, caps=(1, 2, 3, 4), perm_msgs=3, fut=True)
+        # explicit numbering of 4 and 5 messages: every permutation whose largest displacement is below the capacity, one subscriber;
+        # a seeded sample of them with two subscribers
+        rng = random.Random(5)
+        for nmsg in (4, 5):
+            for perm in itertools.permutations(range(nmsg)):
+                if list(perm) == sorted(perm):
+                    continue
+                for cap in (2, 3, 4):
+                    if displacement(perm) < cap:
+                        cs.append(dict(NMsg=nmsg, NSub=1, Cap=cap, Lazy=False, Drive=[True], Mode="perm", Perm=list(perm), Fut=[]))
+                        if rng.random() < 0.1:
+                            cs.append(dict(NMsg=nmsg, NSub=2, Cap=cap, Lazy=False, Drive=[True, True], Mode="perm", Perm=list(perm), Fut=[]))
         budget = 6000
     return cs, budget
 
